@@ -116,7 +116,7 @@ func (s *Swarm) Ask(ctx context.Context, resp []byte, dst Addr, data p2p.IOVec) 
 	if err != nil {
 		return 0, err
 	}
-	reply, err := c.Send(true, p2p.VecBytes(nil, data))
+	reply, err := c.Send(ctx, true, p2p.VecBytes(nil, data))
 	if err != nil {
 		return 0, err
 	}
@@ -131,7 +131,7 @@ func (s *Swarm) Tell(ctx context.Context, dst Addr, data p2p.IOVec) error {
 	if err != nil {
 		return err
 	}
-	_, err = c.Send(false, p2p.VecBytes(nil, data))
+	_, err = c.Send(ctx, false, p2p.VecBytes(nil, data))
 	if err != nil {
 		return err
 	}
